@@ -69,6 +69,17 @@ fn check_pair_inner(a: &Locale, b: &Locale, st: &mut Stats, mode: Count) {
         // Locale
         let lexp = if private { false } else { exp };
         let lgot = a.matches(b, *ra, *rb);
+        // the mirrored question right after it, with the SAME flags (an answer remembered under a key
+        // that forgets which operand was which comes back here)
+        let lback = b.matches(a, *ra, *rb);
+        let lback_exp = if private { false } else { expected(&mb, &ma, *ra, *rb) };
+        if lback != lback_exp {
+            st.fail("locale-matches:mirrored-call-right-after", case(), size, format!("Locale {sb}.matches({sa}, {ra}, {rb}) = {lback} right after {sa}.matches({sb}, {ra}, {rb}) = {lgot}; expected {lback_exp}"));
+        }
+        let iback = b.id.matches(&a.id, *ra, *rb);
+        if iback != expected(&mb, &ma, *ra, *rb) {
+            st.fail("langid-matches:mirrored-call-right-after", case(), size, format!("{}.matches({}, {ra}, {rb}) = {iback} right after the forward call", b.id, a.id));
+        }
         if lgot != lexp {
             st.fail(format!("locale-matches:{}", if private { "private-use-rule" } else { "differs-from-id-result" }), case(), size, format!("Locale {sa}.matches({sb}, {ra}, {rb}) = {lgot}, expected {lexp}"));
         }
@@ -239,6 +250,27 @@ pub fn run(cfg: &Cfg) -> Stats {
     });
     total = total.merge(s);
     total.subspace("pairs of G2 locales: independent, identical, one-field-apart (proptest)", np, false);
+    // identifiers with many variants: 0 .. 257 of them, around every power of two (a count kept in
+    // a narrow integer or shifted into a packed summary wraps exactly there)
+    {
+        let counts = [0usize, 1, 2, 7, 8, 9, 15, 16, 17, 31, 32, 33, 63, 64, 65, 127, 128, 129, 255, 256, 257];
+        let mk = |n: usize, shift: usize| -> Option<Locale> {
+            let vs: Vec<unic_locale::subtags::Variant> = (0..n).map(|i| format!("v{:05}", i + shift).parse().ok()).collect::<Option<Vec<_>>>()?;
+            let lang: unic_locale::subtags::Language = "en".parse().ok()?;
+            Some(Locale::from_parts(lang, None, None, &vs, None))
+        };
+        let mut many: Vec<Locale> = vec![];
+        for n in counts {
+            many.extend(mk(n, 0));
+            if n > 0 {
+                many.extend(mk(n, 1));
+            }
+        }
+        let n = (many.len() * many.len()) as u64;
+        let s = par_range(n, |i, st| check_pair(&many[(i / many.len() as u64) as usize], &many[(i % many.len() as u64) as usize], st, Count::Hash));
+        total = total.merge(s);
+        total.subspace("identifiers with 0-257 variants (every count next to a power of two), all pairs x 4 flag pairs", n * 4, true);
+    }
     // cold start (G28): matches() as the first library call of a fresh process, on raw-constructed values
     let s = crate::props::cold::for_each_probe(cfg.pick(1_500, 8_000), "matches-first", &|a, b, obs, st| crate::props::cold::check_matches(a, b, obs, st, "matches-first"));
     total = total.merge(s);
